@@ -316,6 +316,7 @@ func runC08(c *Ctx) {
 	c08Copy(c)
 	c08Snapshot(c)
 	c08ReadPath(c)
+	cacheKeyRules(c)
 	// "the root depends on the content only": the storage and account tries keep the canonical shape under insert and
 	// delete whatever the history (group owned by C07)
 	c07Shape(c)
